@@ -10,6 +10,7 @@
 EXTENDS Model, A_hist, L_hist
 
 NoFilt == <<>>
+One == {1}
 TickSet == {9000, 11000}
 ASSUME AlphaLit = Alpha
 =============================================================================
